@@ -247,6 +247,39 @@ pub fn run(ctx: &mut Ctx) {
                 ctx.count("E5.unrealisable_target_skipped");
             }
         }
+        // E6: errors at equally spaced in-block locations i0 + j*d with d*v = 255 (the locator is then a binomial
+        // 1 + a x^v) and at other arithmetic progressions / sparse-locator patterns; any values
+        for b in 0..r.blocks {
+            let pos = r.block_positions(b);
+            let n = pos.len();
+            for (v, d) in [(3usize, 85usize), (5, 51), (15, 17), (17, 15)] {
+                if v > t || (v - 1) * d >= n {
+                    continue;
+                }
+                let maxi0 = n - 1 - (v - 1) * d;
+                for rep in 0..3 {
+                    if !ctx.mine(item) {
+                        item += 1;
+                        continue;
+                    }
+                    item += 1;
+                    let i0 = if rep == 0 { 0 } else if rep == 1 { maxi0 } else { ctx.rng.below(maxi0 + 1) };
+                    let cw = valid_codeword(&mut ctx.rng, r, &rs, 3);
+                    let e: Vec<(usize, u8)> = (0..v).map(|j| (pos[i0 + j * d], 1 + ctx.rng.below(255) as u8)).collect();
+                    eval(ctx, r, &cw, &e, "E6_equally_spaced_positions");
+                }
+            }
+            // general arithmetic progressions of length w <= t
+            for _ in 0..ctx.budget(16 * 2, 16 * 40) {
+                let w = ctx.rng.range(2.min(t), t);
+                let dmax = ((n - 1) / (w.max(2) - 1)).max(1);
+                let d = ctx.rng.range(1, dmax);
+                let i0 = ctx.rng.below(n - (w - 1) * d);
+                let cw = valid_codeword(&mut ctx.rng, r, &rs, 3);
+                let e: Vec<(usize, u8)> = (0..w).map(|j| (pos[i0 + j * d], 1 + ctx.rng.below(255) as u8)).collect();
+                eval(ctx, r, &cw, &e, "E6_arithmetic_progressions");
+            }
+        }
         // E4: pixel level
         let n4 = ctx.budget(16 * 25, 16 * 500);
         for i in 0..n4 as usize {
